@@ -207,17 +207,39 @@ func elementKinds(r *core.Run) {
 		r.Fatal("anchor: protoprint.fileBuilder.printElements not found")
 		return
 	}
+	// the dispatch is the type switch over a value of the descriptor interface, in printElements
+	// itself or in a helper it hands the element to (not the type-order switch of add)
 	cases := map[string]bool{}
-	ast.Inspect(fd.Body, func(n ast.Node) bool {
-		if cc, ok := n.(*ast.CaseClause); ok {
-			for _, e := range cc.List {
-				if t, ok := info.TypeOf(e).(*types.Named); ok {
-					cases[t.Obj().Name()] = true
+	for _, d := range core.TreeDecls(pk, fd, 2, "add", "sourceElements.add") {
+		ast.Inspect(d.Body, func(n ast.Node) bool {
+			ts, ok := n.(*ast.TypeSwitchStmt)
+			if !ok {
+				return true
+			}
+			var subj ast.Expr
+			switch a := ts.Assign.(type) {
+			case *ast.AssignStmt:
+				if ta, ok := a.Rhs[0].(*ast.TypeAssertExpr); ok {
+					subj = ta.X
+				}
+			case *ast.ExprStmt:
+				if ta, ok := a.X.(*ast.TypeAssertExpr); ok {
+					subj = ta.X
 				}
 			}
-		}
-		return true
-	})
+			if subj == nil || !strings.HasSuffix(core.TypeStr(info.TypeOf(subj)), "protoreflect.Descriptor") {
+				return true
+			}
+			for _, st := range ts.Body.List {
+				for _, e := range st.(*ast.CaseClause).List {
+					if t, ok := info.TypeOf(e).(*types.Named); ok {
+						cases[t.Obj().Name()] = true
+					}
+				}
+			}
+			return true
+		})
+	}
 	var ks []string
 	for k := range added {
 		ks = append(ks, k)
